@@ -83,6 +83,9 @@ pub fn env_dump(p: &Puppet, spec: &EnvSpec, before: HashMap<String, Callback>, a
     env::fire_after_return();
     let e = env::disarm().expect("env");
     drop(fp);
+    if spec.dest_fault.is_none() {
+        crate::checks::universal::dest_check(&result, &dest.data, 0);
+    }
     crate::checks::universal::flush_pending();
     crate::checks::universal::set_degraded(was);
     EnvOut { result, trace: e.trace, dev_opens: e.dev_opens, all_opens: e.all_opens, refused: e.refused, dest }
